@@ -124,6 +124,23 @@ theorem pmtiles_roundtrip (K : Inflate) (enc : Bytes → Bytes) (s : PMTiles.Sou
   VtProofs.PMTilesRead.pmtiles_complete
     (write_valid_full K enc s tiles gs hK hnil hmeta hcz hgeo hcount file hw hsize)
 
+/-- **root-directory budget**: `as_directory` is called with `16384 − 127`, so the root directory written at
+    offset 127 ends at or before 16384 … -/
+theorem pmtiles_root_within_budget (enc : Bytes → Bytes) (es : List PMTiles.Entry) (root leaves : Bytes)
+    (h : PMTiles.asDirectory enc (16384 - 127) es = .ok (root, leaves)) : 127 + root.length ≤ 16384 :=
+  VtProofs.PMTilesWrite.root_within_budget enc es root leaves h
+
+/-- … and a root directory within that budget leaves the metadata (written at 16384), the tile data and
+    the leaf directories intact after all positional writes of the writer -/
+theorem pmtiles_root_does_not_reach_metadata (hdr root mta data leaves : Bytes) (hh : hdr.length = 127)
+    (hr : root.length ≤ 16384 - 127) :
+    let file := PMTiles.writeAt (PMTiles.writeAt (PMTiles.writeAt (PMTiles.writeAt (PMTiles.writeAt [] 16384 mta)
+      (16384 + mta.length) data) 127 root) (16384 + mta.length + data.length) leaves) 0 hdr
+    slice file ⟨127, root.length⟩ = root ∧ slice file ⟨16384, mta.length⟩ = mta ∧
+    slice file ⟨16384 + mta.length, data.length⟩ = data ∧
+    slice file ⟨16384 + mta.length + data.length, leaves.length⟩ = leaves :=
+  VtProofs.PMTilesWrite.root_does_not_reach_metadata hdr root mta data leaves hh hr
+
 /-- formats the PMTiles header can express are declared unchanged -/
 theorem pmtiles_format_preserved (f : TileFormat) (h : f = .pbf ∨ f = .png ∨ f = .jpg ∨ f = .webp ∨ f = .avif ∨ f = .bin) :
     PMTiles.fmtOfType (PMTiles.typeCode f) = f := by
